@@ -109,6 +109,15 @@ class PC(list):
         self._solver = None
         self._fed = 0
         self._keys = [0]
+        self.axkeys = {}
+
+    def need_axioms(self, key):
+        """True exactly once per path position: the instance axioms `key` stands for are not yet part of the
+        path condition (they may have been assumed inside a merged sub-evaluation and discarded with it)."""
+        if key in self.axkeys:
+            return False
+        self.axkeys[key] = len(self)
+        return True
 
     def append(self, c):
         super().append(c)
@@ -128,6 +137,8 @@ class PC(list):
     def reset_to(self, mark, pop=True):
         del self[mark:]
         del self._keys[mark + 1:]
+        for k in [k for k, p in self.axkeys.items() if p >= mark]:
+            del self.axkeys[k]
         if self._solver is not None:
             # everything fed after the mark lives in the pushed scope
             self._solver.pop()
@@ -145,6 +156,9 @@ class PC(list):
             self._solver.add(abstract(self[self._fed]))
             self._fed += 1
         return self._solver
+
+    def side_fed(self):
+        return getattr(self, "_side", 0)
 
 
 class _MergeAbort(Exception):
@@ -237,10 +251,13 @@ class Engine:
         return r
 
     def _feasible(self, extra):
+        from . import abstract as A
         s = self.pc.solver()
         s.push()
         try:
             s.add(abstract(extra))
+            for c in A.SIDE:
+                s.add(c)
             return s.check() != z3.unsat
         finally:
             s.pop()
@@ -473,6 +490,8 @@ class Engine:
             return VStr(s, True)
         if ty == "none":
             return NONE
+        if ty.startswith("const:"):
+            return VStr(ty[6:])
         if ty.startswith("opt[") and ty.endswith("]"):
             inner = self.fresh(ty[4:-1], hint)
             return VOpt(z3.Bool(self.fresh_name(hint + "_isnone")), inner)
